@@ -128,6 +128,7 @@ class World(object):
         self.nontrivial_change = False
         self.nontrivial_compare = False
         self.warnings = collections.Counter()
+        self.group = None      # observations that must agree across the runs of one group (see Profile.group_of)
 
     def __enter__(self):
         from . import seams
@@ -193,6 +194,7 @@ class RunResult(object):
         self.nops = 0
         self.lines = None
         self.sim = None
+        self.group_digest = None
 
 
 def _alarm(signum, frame):
@@ -241,6 +243,7 @@ def execute(profile, plan, keep_lines=False, watchdog=60):
     res.states = world.states
     res.nontrivial = world.nontrivial_change and world.nontrivial_compare
     res.nops = world.op_index + 1
+    res.group_digest = digest_of(world.group) if world.group is not None else None
     if keep_lines:
         res.lines = world.lines
     c = world.clock
